@@ -185,28 +185,45 @@ def obs_year(rep, prog, rule="OBS-YEAR"):
     if count is None:
         rep.violation(rule, "parse_year", "anchor missing: no split_at(input, digits) found", f.loc())
         return
-    adds = []
-    for bi, b in enumerate(f.blocks):
-        for si, s in enumerate(b["st"]):
-            if s["s"] == "=" and s["rv"]["k"] == "bin" and s["rv"]["op"] in ("Add", "AddWithOverflow"):
-                for o in (s["rv"]["a"], s["rv"]["b"]):
-                    if o.get("o") == "c" and o.get("v") in (1900, 2000):
-                        adds.append((bi, o["v"], s.get("ln")))
+    def adds_in(fn_):
+        out = []
+        for bi, b in enumerate(fn_.blocks):
+            for si, s in enumerate(b["st"]):
+                if s["s"] == "=" and s["rv"]["k"] == "bin" and s["rv"]["op"] in ("Add", "AddWithOverflow"):
+                    for o in (s["rv"]["a"], s["rv"]["b"]):
+                        if o.get("o") == "c" and o.get("v") in (1900, 2000):
+                            out.append((bi, o["v"], s.get("ln")))
+        return out
+    host, host_T, host_cfg, host_count = f, T, cfg, count
+    adds = adds_in(f)
     if len(adds) < 2:
-        rep.violation(rule, "parse_year", "anchor missing: expected the +1900 and +2000 adjustments, found %s" % [a[1] for a in adds], f.loc())
+        # the adjustment may have been extracted into a private helper that receives the digit count as an argument
+        for bi, t in mir.iter_calls(f):
+            g = prog.fns.get("jiff::" + t.get("path", ""))
+            if g is None or g.is_closure or g.file != f.file:
+                continue
+            pos = [i for i in range(len(t.get("args", []))) if T.at_call(bi, t, i) == count]
+            if pos and len(adds_in(g)) >= 2:
+                host, host_T, host_cfg = g, Terms(g), mir.CFG(g)
+                host_count = ("param", pos[0] + 1, (g["locals"][pos[0] + 1] or {}).get("n"))
+                adds = adds_in(g)
+                break
+    if len(adds) < 2:
+        rep.violation(rule, "parse_year", "anchor missing: expected the +1900 and +2000 adjustments (in parse_year or in a helper that "
+                      "receives the digit count), found %s" % [a_[1] for a_ in adds], f.loc())
         return
     bad = []
     count_switches = []
-    for sb, b in enumerate(f.blocks):
+    for sb, b in enumerate(host.blocks):
         t = b["term"]
-        if t["t"] == "switch" and sb in cfg.reachable():
-            c = T.operand(t["op"], 0, (sb, "term"))
-            if c == count:
+        if t["t"] == "switch" and sb in host_cfg.reachable():
+            c = host_T.operand(t["op"], 0, (sb, "term"))
+            if c == host_count:
                 count_switches.append((sb, list(t["targets"]) + [t["otherwise"]]))
     for (bi, v, ln) in adds:
         # selected by the digit count: a switch on the count dominates the block and at least one of its arms cannot reach it
         # (several arms may share the block: `2 | 3 => year + 1900`)
-        on_count = any(cfg.dominates(sb, bi) and any(not (tg == bi or cfg.can_reach(tg, bi, avoid=(sb,))) for tg in tgs)
+        on_count = any(host_cfg.dominates(sb, bi) and any(not (tg == bi or host_cfg.can_reach(tg, bi, avoid=(sb,))) for tg in tgs)
                        for (sb, tgs) in count_switches)
         if not on_count:
             bad.append((v, ln))
